@@ -50,6 +50,9 @@ type evRun struct {
 }
 
 type evCase struct {
+	FixWS    bool     `json:"fixws"`
+	Minimize bool     `json:"minimize"`
+	Optimize bool     `json:"optimize"`
 	ID       int      `json:"id"`
 	Pkg      string   `json:"pkg"`
 	Rules    []evRule `json:"rules"`
@@ -60,9 +63,32 @@ type evCase struct {
 }
 
 type evGen struct {
-	r     *rand.Rand
-	nextT int
-	nextN int
+	r       *rand.Rand
+	nextT   int
+	nextN   int
+	nextH   int
+	nextA0  int
+	helpers []*evElem // helper nonterminals (k = "nt"): sub = alternatives, each a seq with an optional rule-level node name
+}
+
+// a helper nonterminal without a node of its own; its alternatives may carry rule-level nodes, start with their own terminal
+func (g *evGen) helper(d int) *evElem {
+	e := &evElem{K: "nt", T: g.nextH}
+	g.nextH++
+	for i := 0; i < 1+g.r.Intn(3); i++ {
+		alt := &evElem{K: "seq", Sub: []*evElem{g.term()}}
+		for k := 0; k < g.r.Intn(3); k++ {
+			alt.Sub = append(alt.Sub, g.elem(d-1))
+		}
+		if g.r.Intn(2) == 0 {
+			// rule-level node; "A0..." sorts before every inline node name
+			alt.Name = "A0" + strings.Repeat("x", g.nextA0)
+			g.nextA0++
+		}
+		e.Sub = append(e.Sub, alt)
+	}
+	g.helpers = append(g.helpers, e)
+	return e
 }
 
 func (g *evGen) term() *evElem { g.nextT++; return &evElem{K: "sym", T: g.nextT - 1} }
@@ -76,7 +102,7 @@ func (e *evElem) nullable() bool {
 		return true
 	case "list":
 		return !e.Plus
-	case "alt":
+	case "alt", "nt", "twin":
 		return false
 	case "arrow":
 		return e.Sub[0].nullable()
@@ -132,6 +158,8 @@ func (g *evGen) elem(d int) *evElem {
 			e.Sub = append(e.Sub, g.headed(d-1))
 		}
 		return e
+	case x < 11 && r.Intn(2) == 0 && g.nextH < 3:
+		return g.helper(d)
 	case x < 11 && r.Intn(2) == 0:
 		// twin lists: structurally identical elements reported as different nodes: (x -> A)+ y (x -> B)+
 		x, y := g.term(), g.term()
@@ -151,6 +179,8 @@ func (e *evElem) render() string {
 	switch e.K {
 	case "sym":
 		return arTerm(e.T)
+	case "nt":
+		return fmt.Sprintf("H%d", e.T)
 	case "arrow":
 		return "(" + e.Sub[0].renderBody() + " -> " + e.Name + ")"
 	case "opt":
@@ -212,7 +242,7 @@ func (e *evElem) sample(r *rand.Rand, out *[]int) {
 		for _, s := range e.Sub {
 			s.sample(r, out)
 		}
-	case "alt":
+	case "alt", "nt":
 		e.Sub[r.Intn(len(e.Sub))].sample(r, out)
 	case "twin":
 		for i := 0; i < 1+r.Intn(3); i++ {
@@ -321,9 +351,19 @@ func main() {
 }
 `
 
-func (c *evCase) render(nterms int) string {
+func (c *evCase) render(nterms int, helpers []*evElem) string {
 	var b strings.Builder
-	fmt.Fprintf(&b, "language %s(go);\n\npackage = \"rt/%s\"\neventBased = true\n\n:: lexer\n\nWS: /[ \\n]+/ (space)\n", c.Pkg, c.Pkg)
+	fmt.Fprintf(&b, "language %s(go);\n\npackage = \"rt/%s\"\neventBased = true\n", c.Pkg, c.Pkg)
+	if c.FixWS {
+		b.WriteString("fixWhitespace = true\n")
+	}
+	if c.Minimize {
+		b.WriteString("minimizeDFA = true\n")
+	}
+	if c.Optimize {
+		b.WriteString("optimizeTables = true\n")
+	}
+	b.WriteString("\n:: lexer\n\nWS: /[ \\n]+/ (space)\n")
 	for t := 0; t < nterms; t++ {
 		fmt.Fprintf(&b, "%s: /%c/\n", arTerm(t), 'a'+t)
 	}
@@ -343,6 +383,21 @@ func (c *evCase) render(nterms int) string {
 			b.WriteString(" " + e.render())
 		}
 		fmt.Fprintf(&b, " %s\n;\n\n", arTerm(r.End))
+	}
+	for _, hp := range helpers {
+		fmt.Fprintf(&b, "H%d:\n", hp.T)
+		for i, alt := range hp.Sub {
+			sep := "  | "
+			if i == 0 {
+				sep = "    "
+			}
+			arrow := ""
+			if alt.Name != "" {
+				arrow = " -> " + alt.Name
+			}
+			fmt.Fprintf(&b, "%s%s%s\n", sep, alt.renderBody(), arrow)
+		}
+		b.WriteString(";\n\n")
 	}
 	return b.String()
 }
@@ -377,7 +432,8 @@ func c02sGen(args []string) error {
 		if g.nextT > 26 {
 			goto again
 		}
-		c.TM = c.render(g.nextT) + c02sAdapter
+		c.FixWS, c.Minimize, c.Optimize = r.Intn(3) == 0, r.Intn(3) == 0, r.Intn(4) == 0
+		c.TM = c.render(g.nextT, g.helpers) + c02sAdapter
 		for k := 0; k < 25; k++ {
 			var toks []int
 			for it := 0; it < 1+r.Intn(2); it++ {
